@@ -70,6 +70,10 @@ type pushSim struct {
 	// faultOpen: from the fault to the next quiescence requests may still come from the pusher
 	// that the fault killed (its outcome queues are gone)
 	faultOpen bool
+	// lenient (pushtiny): requests are counted and their envelopes checked, the model is not
+	// consulted (leases of a few nanoseconds are shorter than any request)
+	lenient bool
+	sink    []seqOp
 }
 
 type envelope struct {
@@ -125,6 +129,9 @@ func (ps *pushSim) RoundTrip(req *http.Request) (*http.Response, error) {
 	}
 	rm := RecvMsg{AckID: p.ack, MsgID: p.msgID, Data: data, Attrs: env.Message.Attributes, Key: env.Message.OrderingKey, Attempt: p.attempt, PubTime: pt}
 	seqNo := S.commitSeq
+	if ps.lenient {
+		ps.pending = &ps.sink
+	}
 	*ps.pending = append(*ps.pending, seqOp{seqNo, func() *Violation {
 		if x := r.M.Msgs[rm.MsgID]; x != nil {
 			r.ev("   (POST #%d carried m%d, attempt %d)", p.id, x.Seq, rm.Attempt)
@@ -743,3 +750,100 @@ func runPush(t *testing.T, tape *Tape, w *World, variant string, steps int, out 
 }
 
 func init() { engines["push"] = runPush }
+
+// pushtiny: boundary values of the retry policy on a push subscription. A minimum backoff of
+// a few nanoseconds is accepted by CreateSubscription; the pusher must serve such a
+// subscription (and must not take the server down). Oracle: the process survives, every
+// envelope is well-formed, every published message is POSTed at least once.
+func runPushTiny(t *testing.T, tape *Tape, w *World, variant string, steps int, out *runOutcome) {
+	r := newSetupRun(tape, w, "push")
+	out.stats = r.Stats
+	defer func() {
+		out.trace, out.probes, out.hashes = r.Trace, r.M.Probes, r.Hashes
+		out.sample = sampleOf(r.Trace)
+	}()
+	if services.VerifHTTPPusher == nil {
+		panic("HARNESS: push overlay not available")
+	}
+	tape.Frame()
+	r.nTopics, r.nSubs = 1, 1
+	if v := r.xTopic(0); v != nil {
+		out.v = v
+		return
+	}
+	minB := []time.Duration{time.Nanosecond, 2 * time.Nanosecond, 3 * time.Nanosecond, time.Microsecond, time.Millisecond}[tape.Intn(5)]
+	endpoint := "http://push.sim.invalid/endpoint"
+	if v := r.xSub(0, 0, func(c *SubCfg, q *pubsubpb.Subscription) {
+		c.Push, q.PushConfig = endpoint, &pubsubpb.PushConfig{PushEndpoint: endpoint}
+		c.MinB = minB
+		q.RetryPolicy = &pubsubpb.RetryPolicy{MinimumBackoff: durationpbNew(minB)}
+	}); v != nil {
+		out.v = v
+		return
+	}
+	r.ev("push subscription with minimum backoff %v", minB)
+	sub := r.M.LiveSub(subName(0))
+	sub.attached = true
+	var firstViol *Violation
+	fail := func(v *Violation) {
+		if firstViol == nil && v != nil {
+			firstViol = v
+		}
+	}
+	ps := &pushSim{r: r, sub: sub, fail: fail, seen: map[string]int{}, nackRace: map[string]bool{}, lenient: true}
+	ps.pending = &ps.sink
+	ps.script = func(p *pushReq) { p.status = []int{200, 204}[tape.Intn(2)] }
+	oldTransport := http.DefaultTransport
+	http.DefaultTransport = ps
+	defer func() { http.DefaultTransport = oldTransport }()
+	r.M.Concurrent = true
+	S.on = true
+	c := &conc{t: tape}
+	svc := services.VerifHTTPPusher()
+	if err := svc.Initialize(context.Background(), w.Client); err != nil {
+		panic("HARNESS: pusher init: " + err.Error())
+	}
+	ready := make(chan struct{})
+	pusherTask := c.spawn("pusher", func(ctx context.Context) {
+		if err := svc.Start(ctx, ready); err != nil && !errors.Is(err, context.Canceled) {
+			fail(viol("C19", "pusher_died", "http pusher service ended with %v", err))
+		}
+	})
+	var ids []string
+	n := 1 + tape.Intn(3)
+	c.spawn("pub", func(ctx context.Context) {
+		for k := 0; k < n; k++ {
+			resp, err := w.Call(ctx, "Publish", &pubsubpb.PublishRequest{Topic: topicName(0), Messages: []*pubsubpb.PubsubMessage{{Data: r.genPayload(7000 + k)}}})
+			if err != nil {
+				fail(viol("C12", "status", "Publish: %v", err))
+				return
+			}
+			ids = append(ids, resp.(*pubsubpb.PublishResponse).MessageIds[0])
+		}
+	})
+	for slice := 0; slice < 40 && firstViol == nil; slice++ {
+		if _, ok := c.run(1500, nil); !ok {
+			break
+		}
+		time.Sleep(50 * time.Millisecond)
+		S.Settle()
+	}
+	pusherTask.cancel()
+	c.finish()
+	_ = svc.Cleanup(context.Background())
+	S.Settle()
+	r.M.Concurrent = false
+	r.Stats["conc_steps"] += c.steps
+	r.Stats["push_requests"] += len(ps.reqs)
+	if firstViol == nil {
+		for _, id := range ids {
+			if ps.seen[id] == 0 {
+				firstViol = viol("C19", "never_pushed", "message %s on a push subscription with minimum backoff %v was never POSTed in 2 s (%d requests in all)", id, minB, len(ps.reqs))
+				break
+			}
+		}
+	}
+	out.v = firstViol
+}
+
+func init() { engines["pushtiny"] = runPushTiny }
